@@ -259,6 +259,7 @@ PROPS = {
         "level_note": "Trusted: Coq kernel; translator for error texts/numbers, IOHDRSZ/MSIZE/NOFID/NOUID and the QT*/DM*/O* bits; extraction + OCaml driver; the Go harness (scripted implementation, net.Pipe transport). One request at a time (the concurrent life cycle is C03/C07/C08/C11); the user database is the default OsUsers; the implementation is an arbitrary input (script) answering with the matching R-message or an error; the reply buffer is modelled by its capacity. Print Assumptions: closed under the global context. Rread never carrying more than Tread asked for is the Ufs read model of C14 (pread clamps to count); the client side of the negotiation (Connect adopting min / conjunction) is exercised by the C09/C10/C14 harness sessions, not modelled.",
     },
     "C09": {
+        "gen": ["consts", "shape"],
         "clauses": ["C09"],
         "modes": [{"name": "clnt", "harness": "clnt", "modelcheck": "clnt"},
                   {"name": "clntlog", "harness": "clntlog", "modelcheck": "clntref"}],
@@ -306,7 +307,7 @@ PROPS = {
                   {"name": "clnt", "harness": "clnt", "modelcheck": "clnt"}],
         "rule": "request streams of 8-40 independent messages (tiny and near-msize Twrite payloads, unknown fids, flushes, walks) with msize 64..4096 so the 8*msize buffer wraps and is reallocated, some ending in an oversize / undersize / undecodable frame; each stream is fed to the real server through a transport whose Read returns exactly the chosen segments: whole stream, every single split point (sampled in quick), one byte at a time, 30 random k-way splits. Oracle: delivered requests (tag, type, frame md5, payload md5 at delivery and at the end), reply bytes and close decision identical to the reference segmentation; correspondence: the Coq loop model on the same segments delivers the same frames and closes iff the server does. Non-trivial: >= 2 segments; distinct by (stream, segmentation).",
         "level_text": "Coq theorems (Props/C13.v): the model of both receive loops (buffer length/pos bookkeeping, inner framing loop, size check, reallocation, parameters re-read after a synchronous Tversion) delivers, for ANY segmentation of the stream into transport reads, exactly the frames of a framing specification that is a function of the concatenated stream only; it closes on a bad frame iff the specification does; it never issues an empty Read; the buffer stays within 8*msize. Unbounded in stream length, message count and segmentation. Tied to the code by running the real server under thousands of segmentations and comparing with the model.",
-        "level_note": "Trusted: Coq kernel; translator for the 8*msize buffer factor and IOHDRSZ; extraction and OCaml driver; the Go harness (segment-exact fake net.Conn, hook recv.enqueued as delivery log). The loop model calls the decoder on the accumulated bytes and relies on C02's prefix-only theorem for the stale bytes behind pos; payload immutability (views are never overwritten) is checked by the harness (payload md5 at delivery vs. at the end), not proved; the client loop is proved on the model and tied through the C09/C10 client harness. Print Assumptions: closed under the global context.",
+        "level_note": "Trusted: Coq kernel; translator for the 8*msize buffer factor and IOHDRSZ; extraction and OCaml driver; the Go harness (segment-exact fake net.Conn, hook recv.enqueued as delivery log). The loop model calls the decoder on the accumulated bytes and relies on C02's prefix-only theorem for the stale bytes behind pos; payload immutability is proved on the memory model Recv/Views.v (any reads, deliveries, reallocations; in-buffer compaction refuted), tied to the source by the shape fact that every copy in a receive loop goes into a freshly allocated buffer, and checked by the harness (payload md5 at delivery vs. at the end); the client loop is proved on the model and tied through the C09/C10 client harness. Print Assumptions: closed under the global context.",
         "assumptions": ["net.Conn.Read returns between 1 and len(p) bytes of the stream in order"],
     },
     "C06": {
